@@ -167,6 +167,12 @@ def run(db, chk):
             chk.ob("C08-B2", "%s allocated with its computed shape" % m, okm, where=fn.ploc,
                    function=fn.bn, construct=m, extra={"unit": fn.unit.name})
 
+    # ---- shared clauses
+    chk.absorb(db, "C20", {"C20-T1"}, "C08-B2b", "the receiver tables are single-column only when every "
+               "intermediate state of the sequence is single-direction (shared with C20-T1): otherwise a "
+               "multi-direction router writes beyond column 0", min_instances=399)
+    chk.absorb(db, "C11", {"C11-P1"}, "C08-B4", "the block partition handed to workers never leaves the index "
+               "range (shared with C11-P1)", min_instances=1)
     # ---- B3
     resize_safe = {}
     for fn in db.fns(POOL + "::resize"):
